@@ -12,9 +12,11 @@ whatever the code writes (real ``bytes`` in replay, ``LBytes`` over symbolic tex
 with symbolic lengths under the solver) and are only concatenated, measured and sliced here.
 
 Crash model (contract, repeated in each property's ASSUMPTIONS):
-  * every mutating call is one step; the call whose step index equals ``crash_at`` does not take
-    effect and raises ``Crash`` -- except ``write``/``truncate``... a crashed ``write`` leaves the
-    first ``cut`` units of its data (a prefix) in the file;
+  * every mutating call (create, truncating open, write, truncate, rename, remove, mkdir, rmdir,
+    symlink) is one step; the call whose step index equals ``crash_at`` does not take effect and
+    raises ``Crash`` -- except that a crashed ``write`` leaves the first ``cut`` units of its data
+    (a prefix, possibly all of it) in the file;
+  * writes are not buffered: ``flush``/``close``/``fsync`` are no-ops;
   * ``rename``/``replace``/``remove``/``mkdir``/``rmdir``/``symlink`` are atomic;
   * data and directory operations are durable in program order (no fsync reordering);
   * after the crash the process is dead: *every* later call on this filesystem raises ``Crash``
